@@ -13,7 +13,11 @@ from replay import cppgen, scenarios
 PROPERTY = "C02"
 LEVEL = "translation_validation"
 EXPLANATION = (
-    "Per program, the C++ text produced by the real generator (cpp.py / ast_fragments.py / templates, run on the working tree) is validated against the "
+    "(a) For ALL programs: the statement generators of py/formak/cpp.py (_translate_process_model, Model._translate_model, _translate_sensor_model, "
+    "_translate_process_jacobian, _translate_control_jacobian, _translate_sensor_jacobian_impl) are symbolically executed with symbolic layouts and "
+    "dictionaries and proved to emit, per layout position, the statement named after that symbol with that symbol's expression (or the derivative of "
+    "row r w.r.t. column c; readings in sorted name order) under a substitution that reads every member through the accessor of its own name on the "
+    "right object; they write nothing on the generator object. (b) Per program, the C++ text produced by the real generator (cpp.py / ast_fragments.py / templates, run on the working tree) is validated against the "
     "symbolic definition: the accessor and constructor tables are parsed from the generated header/source, every per-model function body (state "
     "update, process / control Jacobian, process noise, and per sensor: prediction, Jacobian, noise) is a loop-free assignment list that is executed "
     "symbolically, and each returned field / matrix cell is proved equal (z3 over the reals, all inputs at once) to the expression, exact partial "
@@ -27,6 +31,8 @@ ASSUMPTIONS = [
     "the expression grammar printed by sympy.ccode is parsed with python's ast (same precedence for + - * /; pow and elementary functions as calls); integer/integer division is rejected",
     "elementary functions uninterpreted (sound: may answer undecided, never a wrong proof); floats as reals",
     "symbol names are C++ identifiers not colliding with generated members (premise of the property)",
+    "D-subs: sympy's e.subs(pairs) has the value of e with each member symbol read through its accessor (assumed; exercised per program by (b))",
+    "an obligation of (b) that the solver does not decide is evaluated numerically at two points: a difference is a violation, agreement is recorded as undecided",
     "corpus bound: quick 6 programs, thorough 40 programs (x 2 CSE settings)",
 ]
 TRUSTED_BASE = ["replay/cxxtext.py (parser of the generated text)", "pvc.sympy2z3", "z3 5.1 / ring normaliser", "g++ 12 (syntax/semantic check against the stand-in)"]
